@@ -308,7 +308,7 @@ const SPECIAL_U64: &[u64] = &[0, 1, 2, 7, 8, 9, 255, 256, 65535, 65536, 1 << 20,
 pub fn gen_input(seed: u64, idx: u64) -> (usize, Vec<u8>, &'static str) {
     let mut rng = Rng::new(crate::common::mix(seed, idx));
     let subject = (idx % SUBJECTS.len() as u64) as usize;
-    let strategy = rng.below(13);
+    let strategy = rng.below(14);
     match strategy {
         0 => {
             let n = match rng.below(4) {
@@ -425,6 +425,25 @@ pub fn gen_input(seed: u64, idx: u64) -> (usize, Vec<u8>, &'static str) {
                 }
             }
             (subject, v, "systematic-field-poisoning")
+        }
+        13 => {
+            // a frame at the size limit of which all but the last few bytes have arrived (frame decoder only; the other
+            // subjects get a plain truncation)
+            if subject == 0 && rng.below(40) == 0 {
+                let back = rng.below(10) as usize;
+                let cut = rng.range(1, 12) as usize;
+                let mut v = Vec::with_capacity(1_048_600);
+                v.extend_from_slice(&((1_048_576 - back) as u64).to_be_bytes());
+                v.push(5); // batch frame: payload bytes are taken as they are
+                v.resize(9 + 1_048_576 - back - cut, 0x5a);
+                (subject, v, "limit-sized-frame-missing-its-last-bytes")
+            } else {
+                let mut v = valid_seed(subject, &mut rng);
+                let cut = rng.range(1, 12) as usize;
+                let l = v.len().saturating_sub(cut);
+                v.truncate(l);
+                (subject, v, "truncated-by-a-few-bytes")
+            }
         }
         12 => {
             // long runs of the smallest well-formed unit (thousands of empty gzip members, empty batches, Ok frames …):
